@@ -1196,6 +1196,26 @@ func plusRules(c *core.Ctx, pkg string) {
 				nexts = append(nexts, e)
 			}
 		}
+		// a guard for an object whose current operand is nil: no live object is in that state (the constructor and
+		// every successful step leave it non-nil), so answering false there decides nothing
+		if p.Exit == ir.ExitReturn && len(p.Results) == 1 && len(evs) == 0 && len(nonLocalStores(p)) == 0 {
+			if rv, isRet := retBool(p); isRet && !rv {
+				curNil := false
+				for _, b := range p.Events(ir.KBranch) {
+					at := b.Atom
+					if at.Op == "bin" && at.Aux == "==" && len(at.Args) == 2 && b.Pol {
+						for j := 0; j < 2; j++ {
+							if at.Args[j].IsNil() && fieldOfRecv(next, at.Args[1-j]) == cur {
+								curNil = true
+							}
+						}
+					}
+				}
+				if curNil {
+					continue
+				}
+			}
+		}
 		if p.Exit != ir.ExitReturn || len(p.Results) != 1 || len(nexts) != 1 || fieldOfRecv(next, nexts[0].on) != cur {
 			okN = false
 			c.Fail("next-protocol", nname, lastPos(p), "every step must advance the current operand exactly once (advances=%d)", len(nexts))
@@ -1448,6 +1468,12 @@ func flatMapAutomaton(c *core.Ctx, fn *ssa.Function, an *ir.Analysis, isCtor boo
 							if !st.Pol {
 								s = fmS0
 							} // nil outer: stays in fmPre, must return nil
+						case isCurVal(x) && s == fmSN && !isCtor:
+							// a guard on the dead state: after Next answered false the current inner sequence is nil (the
+							// documented protocol); finding it nil at entry means the iterator is exhausted already
+							if st.Pol {
+								s = fmS4
+							}
 						case isCurVal(x) && (s == fmS1 || s == fmS2 || s == fmS3):
 							if s == fmS1 {
 								if st.Pol {
